@@ -175,7 +175,7 @@ theorem AdmitG.upgrade {P : Map K V → K → Prop} {cmp : K → K → Int} {eq 
   cases h with
   | insert_ok h1 h2 => exact .insert_ok h1 h2
   | insert_fail h1 => exact .insert_fail h1
-  | changeKey_ok h1 => exact .changeKey_ok h1
+  | changeKey_ok h1 h2 => exact .changeKey_ok h1 h2
   | changeKey_fail h1 => exact .changeKey_fail h1
   | delete_some h1 _ => exact .delete_some h1 (hP _ _ _ rfl)
   | delete_none h1 => exact .delete_none h1
